@@ -41,3 +41,13 @@ Theorem C05_subslot : forall p l k,
   (susage p (sschedule p) l k <= sl_value (slim_of p l))%nat.
 Proof. exact subslot_limits. Qed.
 Print Assumptions C05_subslot.
+
+(* the same in terms of the ledger: the (task, resource, slot) cells holding work that a limit counts in one period are
+   at most value many; each holds at most one slot length (C01_subslot), so the working time counted never exceeds
+   value x slot length, which is the declared limit *)
+Theorem C05_subslot_ledger : forall p l k (L : list (nat * nat * nat)), NoDup L ->
+  (forall b, In b L -> tent (fst (fst b)) (cells (sschedule p) (snd (fst b)) (snd b)) <> nil /\
+                      scounts p l b = true /\ sl_period (slim_of p l) (snd b) = k) ->
+  (length L <= sl_value (slim_of p l))%nat.
+Proof. exact subslot_limit_cells. Qed.
+Print Assumptions C05_subslot_ledger.
